@@ -57,6 +57,14 @@ func loadVerifier(repo, externDir string) (*Verifier, error) {
 		}
 	}
 	v.computeEffects()
+	// field invariants: the field may be assigned only by functions whose contract is flagged `constructor`
+	for f := range v.specs.FieldInv {
+		for _, fn := range v.assignedIn[f] {
+			if c := v.specs.Contracts[fn]; c == nil || !c.Flags["constructor"] {
+				return nil, fmt.Errorf("fieldinv %s: the field is assigned in %s, which is not flagged `constructor`", f, fn)
+			}
+		}
+	}
 	return v, nil
 }
 
